@@ -24,14 +24,16 @@ FINDINGS_FILE = VERIF / "known_findings.txt"
 sys.path.insert(0, str(REPO))
 # The library runs in the environment a user's process has: NumPy's default floating-point error state (warnings, not silence - code that turns
 # a RuntimeWarning into behaviour must see it) and no environment variable announcing the harness (no source hook exists, MANIFEST.hooks).
-# Warnings are only kept off the terminal.
-warnings.filterwarnings("ignore")
+# The warning FILTERS and the library's logger LEVEL are left as a user's process has them (code that records warnings or asks
+# `logger.isEnabledFor(INFO)` must see the default answers); only the OUTPUT is kept off the terminal: warnings are not displayed, log records
+# of the library are dropped by a filter (the level stays what `frouros.utils.logger` sets: INFO).
+warnings.showwarning = lambda *a, **k: None      # noqa: E731
 
 import numpy as np  # noqa: E402
 
 import logging  # noqa: E402
 
-logging.getLogger("frouros").setLevel(logging.CRITICAL)
+logging.getLogger("frouros").addFilter(lambda record: False)
 
 RTOL = 1e-9
 
@@ -52,14 +54,16 @@ def h2f(h: str) -> float:
     return struct.unpack(">d", bytes.fromhex(h))[0]
 
 
-def close(a: float, b: float, rtol: float = RTOL) -> bool:
+def close(a: float, b: float, rtol: float = RTOL, floor: float = 1.0) -> bool:
+    """relative closeness; `floor` is the magnitude below which differences are compared absolutely (1 by default; the scale of the data where the
+    compared quantity is proportional to it - otherwise data of magnitude 1e-13 would always compare equal)"""
     if a != a or b != b:
         return (a != a) and (b != b)
     if a == b:
         return True
     if a in (float("inf"), float("-inf")) or b in (float("inf"), float("-inf")):
         return False
-    return abs(a - b) <= rtol * max(1.0, abs(a), abs(b))
+    return abs(a - b) <= rtol * max(floor, abs(a), abs(b))
 
 
 # ---------------------------------------------------------------- driver
@@ -105,7 +109,7 @@ def tok_f(x) -> str:
     return "x" + f2h(x)
 
 
-def cmp_tokens(a: list[str], b: list[str], rtol: float = RTOL) -> tuple[bool, str]:
+def cmp_tokens(a: list[str], b: list[str], rtol: float = RTOL, floor: float = 1.0) -> tuple[bool, str]:
     """Compare two observation token lists. Returns (equal, description of first difference)."""
     if len(a) != len(b):
         return False, f"token count {len(a)} vs {len(b)}"
@@ -115,7 +119,7 @@ def cmp_tokens(a: list[str], b: list[str], rtol: float = RTOL) -> tuple[bool, st
         if {x, y} <= {"-", "x7ff0000000000000", "xfff0000000000000"}:
             continue        # the implementation side prints +-inf as `-` (the model's `none`)
         if x.startswith("x") and y.startswith("x") and len(x) == 17 and len(y) == 17:
-            if close(h2f(x[1:]), h2f(y[1:]), rtol):
+            if close(h2f(x[1:]), h2f(y[1:]), rtol, floor):
                 continue
             return False, f"token {k}: float {h2f(x[1:])!r} vs {h2f(y[1:])!r}"
         return False, f"token {k}: {x} vs {y}"
